@@ -19,7 +19,7 @@ import (
 //
 // It is called while the status file lock is held, so the lines of one unit are totally ordered. It exists only in
 // builds with the "verif" tag (external verification harness; see /verif).
-func verifStatusWrite(filename string, oldState int, oldSize int64, newState int, newSize int64) {
+func verifStatusWrite(filename string, oldState int, oldSize int64, newState int, newSize int64, detail string) {
 	logName := os.Getenv("VERIF_STATUS_LOG")
 	if logName == "" {
 		return
@@ -29,7 +29,7 @@ func verifStatusWrite(filename string, oldState int, oldSize int64, newState int
 		return
 	}
 	defer f.Close()
-	fmt.Fprintf(f, "%d %s %d %d %d %d\n", os.Getpid(), filename, oldState, oldSize, newState, newSize)
+	fmt.Fprintf(f, "%d %s %d %d %d %d %q\n", os.Getpid(), filename, oldState, oldSize, newState, newSize, detail)
 }
 
 var (
